@@ -17,7 +17,8 @@ import (
 
 // ---- (1) operator handlers over documents of every root kind, incl. empty ones, with symbolic indices ----
 
-var c11Docs = []string{"null", "scalar-int", "scalar-str", "empty-seq", "empty-map", "seq-ints", "seq-mixed-numbers", "map", "seq-of-maps", "nested", "seq-with-null", "merge-inline-map", "merge-list-with-inline-map", "merge-scalar", "alias-to-scalar-as-merge"}
+var c11Docs = []string{"null", "scalar-int", "scalar-str", "empty-seq", "empty-map", "seq-ints", "seq-mixed-numbers", "map", "seq-of-maps", "nested", "seq-with-null", "merge-inline-map", "merge-list-with-inline-map", "merge-scalar", "alias-to-scalar-as-merge",
+	"alias-of-anchored-null", "alias-of-anchored-scalar", "aliases-of-containers-in-a-sequence", "tag-and-kind-disagree", "seq-of-maps-keys-and-values-swapped", "seq-of-sequences-tagged-map", "seq-of-maps-tagged-seq"}
 
 func c11Doc(which int, x string) *CandidateNode {
 	var n *yaml.Node
@@ -53,10 +54,49 @@ func c11Doc(which int, x string) *CandidateNode {
 			vSeq(&yaml.Node{Kind: yaml.AliasNode, Value: "m", Alias: m}, vMap(vStr("b"), vInt(x))), vStr("c"), vInt("2")))
 	case 13: // `<<: 5`
 		n = vMap(vStr("a"), vMap(&yaml.Node{Kind: yaml.ScalarNode, Tag: "!!merge", Value: "<<"}, vInt(x)))
-	default: // `<<: *s` where s anchors a scalar
+	case 14: // `<<: *s` where s anchors a scalar
 		sc := vInt(x)
 		sc.Anchor = "s"
 		n = vMap(vStr("s"), sc, vStr("a"), vMap(&yaml.Node{Kind: yaml.ScalarNode, Tag: "!!merge", Value: "<<"}, &yaml.Node{Kind: yaml.AliasNode, Value: "s", Alias: sc}))
+	case 15: // an anchor on a null value (`n: &x ~`, also the empty `n: &x`) and aliases of it
+		nn := vNull()
+		if x == "1" {
+			nn.Value = "~"
+		} else if x == "3" {
+			nn.Value = ""
+		}
+		nn.Anchor = "x"
+		al := func() *yaml.Node { return &yaml.Node{Kind: yaml.AliasNode, Value: "x", Alias: nn} }
+		n = vMap(vStr("n"), nn, vStr("a"), al(), vStr("b"), vSeq(al()), vStr("c"), vMap(vStr("d"), al()))
+	case 16:
+		sc := vStr("t" + x)
+		sc.Anchor = "y"
+		al := func() *yaml.Node { return &yaml.Node{Kind: yaml.AliasNode, Value: "y", Alias: sc} }
+		n = vMap(vStr("s"), sc, vStr("a"), al(), vStr("b"), vMap(vStr("c"), al()))
+	case 17:
+		sq := vSeq(vInt(x))
+		sq.Anchor = "z"
+		em := vMap()
+		em.Anchor = "e"
+		n = vSeq(sq, &yaml.Node{Kind: yaml.AliasNode, Value: "z", Alias: sq}, em, &yaml.Node{Kind: yaml.AliasNode, Value: "e", Alias: em})
+	case 18: // `[!!map [1], !!seq {a: 1}, !!str [2]]`: explicit tags that disagree with the node kind
+		a := vSeq(vInt(x))
+		a.Tag = "!!map"
+		b := vMap(vStr("a"), vInt("1"))
+		b.Tag = "!!seq"
+		c := vSeq(vInt("2"))
+		c.Tag = "!!str"
+		n = vSeq(a, b, c)
+	case 19: // maps whose keys are the values of the other one
+		n = vSeq(vMap(vStr("a"), vStr("b")), vMap(vStr("b"), vStr("a")), vMap(vStr("a"), vStr("b"), vStr("b"), vStr("c")))
+	case 20: // `[!!map [1], !!map [1, 2, 3]]`
+		a, b := vSeq(vInt(x)), vSeq(vInt("1"), vInt("2"), vInt("3"))
+		a.Tag, b.Tag = "!!map", "!!map"
+		n = vSeq(a, b)
+	default: // `[!!seq {a: 1}, !!seq {}]`
+		a, b := vMap(vStr("a"), vInt(x)), vMap()
+		a.Tag, b.Tag = "!!seq", "!!seq"
+		n = vSeq(a, b)
 	}
 	return vDoc(n)
 }
@@ -69,6 +109,9 @@ var c11Exprs = []string{
 	"{(.a): 1}", "{\"k\": .[]}", "[.[] | .a]", "to_number", "to_string", "upcase", "trim", "test(\"a\")", "sub(\"a\", \"b\")", "match(\"a\")", "capture(\"(?P<n>a)\")", "path", "parent", "parent(2)", "key", "tag", "kind", "style", "anchor", "alias", "line", "column",
 	"explode(.)", "splitDoc", "document_index", "filename", "pivot", "array_to_map", "sort_keys(.)", "sort_keys(..)", "del(.a)", "del(.[])", "del(..)", ".a = .b", ".. |= .", ".[] += 1", "with(.a; . = 1)", "setpath([\"a\", 7770001]; 1)", "delpaths([[\"a\"]])", "eval(\".a\")",
 	"(.a, .b) = 1", ".a.b.c = 1", ".[\"a\"]", ".a?", ".[]?", ".a[]?", ". tag = \"!!str\"", ". style=\"flow\"", ". anchor = \"x\"", ".a alias = \"x\"", ". line_comment = \"c\"", "... comments=\"\"", "to_entries | from_entries", "[.[] | select(.a == 1)]",
+	// operands that are sequences of maps, maps of maps; values reached through aliases
+	". - [{\"b\": \"a\"}]", ". - [.[0]]", "[.[0]] - .", "contains([{\"b\": \"c\"}])", ".[0] | contains({\"b\": \"a\"})", "unique_by(.b)", ".[] |= . + {\"z\": 1}", ".a.b", ".a[0]", ".a[]", ".a.b = 1", ".b[0].c", ".c.d.e", ".a |= . + 1",
+	"(.a | alias) as $n | .", ".x alias = \"nope\" | .x.y", ".a alias = \"x\" | .a.b", ".[] | keys", ".[] | length", ".[] | to_entries", "map(pivot)", ".[] | pivot", "[.[] | tag]", ".[] | sort_keys(.)", ".[] | flatten", ".[] | reverse", ".[] | has(0)", ".[] | has(\"a\")",
 }
 
 func VerifC11Operators() {
@@ -84,8 +127,8 @@ func VerifC11Operators() {
 	exp := vParse(c11Exprs[e])
 	// indices are solver variables where the document is (or may become) a sequence; against maps an index is
 	// matched as a key pattern, which needs its digits: there a few concrete values are used instead
-	seqLike := d == 0 || d == 3 || d == 5 || d == 6 || d == 8 || d == 10
-	if d >= 11 && e%4 != 0 && !strings.Contains(c11Exprs[e], "explode") && !strings.Contains(c11Exprs[e], "..") && !strings.Contains(c11Exprs[e], ".a") {
+	seqLike := d == 0 || d == 3 || d == 5 || d == 6 || d == 8 || d == 10 || d >= 17
+	if d >= 11 && d <= 14 && e%4 != 0 && !strings.Contains(c11Exprs[e], "explode") && !strings.Contains(c11Exprs[e], "..") && !strings.Contains(c11Exprs[e], ".a") {
 		return // merge-key documents: a quarter of the expressions plus everything that explodes, recurses or reads .a
 	}
 	idx := func(name string) string {
